@@ -277,3 +277,39 @@ class _NoParens(_ast._Unparser):
 
 def unparse_no_parens(tree) -> str:
     return _NoParens().visit(tree)
+
+
+def indent_histories(r, n, maxlines=9):
+    """Random indentation histories: lines `if x:` / `pass` at columns drawn from a small set, so that blocks are opened,
+    closed and re-opened at other columns and a later line dedents to a column that was used earlier but is not open any
+    more.  Valid and invalid layouts alike: the oracle decides."""
+    cols = [0, 1, 2, 3, 4, 6, 8]
+    out = []
+    for _ in range(n):
+        stack = [0]
+        used = {0}
+        lines = []
+        opener = False
+        for _i in range(r.randint(3, maxlines)):
+            k = r.random()
+            if opener:
+                c = r.choice([x for x in cols if x > stack[-1]] or [stack[-1] + 2]) if k < 0.9 else r.choice(cols)
+            elif k < 0.55:
+                c = stack[-1]
+            elif k < 0.75:
+                c = r.choice(stack)
+            elif k < 0.92:
+                c = r.choice(sorted(used - set(stack)) or stack)  # a column that was used earlier but is not open any more
+            else:
+                c = r.choice(cols)
+            while stack and stack[-1] > c:
+                stack.pop()
+            if not stack or stack[-1] < c:
+                stack.append(c)
+            used.add(c)
+            opener = r.random() < 0.45
+            lines.append(" " * c + ("if x:" if opener else r.choice(["pass", "y = 1", "z"])))
+        if opener:
+            lines.append(" " * (stack[-1] + 2) + "pass")
+        out.append("\n".join(lines) + "\n")
+    return out
